@@ -614,4 +614,175 @@ theorem connect_served {s : St} (h : Accepting s) (hk : s.cfg.kind ≠ .oneshot)
       simp_all [acceptOne, joined, authServe, serveClient, built, runDedicated, applyConsumed, consume, Ready, poolAccept,
         poolBuild, poolWake, Srv.untrackAll, St.mapCli]
 
+
+/-! ### whole runs -/
+
+/-- the other clients do anything; client `g` itself only calls -/
+def OthersAndPings (g : Nat) (ops : List Op) : Prop :=
+  ∀ op ∈ ops, op.c16 = true ∧ (op.client = some g → op = .call g .ping)
+
+/-- every call of `g` in `ops` is answered, correctly -/
+def pongs (g : Nat) : List Op → List (Option Obs) → Prop
+  | [], _ => True
+  | op :: ops, o :: os => (op = .call g .ping → o = some (.reply .pong)) ∧ pongs g ops os
+  | _ :: _, [] => False
+
+theorem accepting_run {s : St} (h : Accepting s) (hu : Unstallable s) (ops : List Op) (hops : ∀ op ∈ ops, op.c16 = true)
+    (hsil : ∀ op ∈ ops, ∀ k, op ≠ .connect k .silent ∨ s.cfg.kind ≠ .pool) : Accepting (Srv.run s ops) := by
+  induction ops generalizing s with
+  | nil => exact h
+  | cons op ops ih =>
+    unfold run
+    cases hs : step s op with
+    | error e => exact ih h hu (fun o ho => hops o (by simp [ho])) (fun o ho => hsil o (by simp [ho]))
+    | ok r =>
+      obtain ⟨t, o⟩ := r
+      obtain ⟨h', hu'⟩ := h.step hu op (hops op (by simp)) (hsil op (by simp)) hs
+      refine ih h' hu' (fun o ho => hops o (by simp [ho])) ?_
+      intro o ho k; rw [step_cfg op hs]; exact hsil o (by simp [ho]) k
+
+theorem accepting_init (cfg : Cfg) : Accepting (init cfg) := by
+  refine ⟨⟨rfl, rfl, rfl, rfl, rfl⟩, rfl, ?_⟩
+  intro j; simp [Srv.init]
+
+theorem Ready.same {c d : Cli} (h : Ready c) (hs : Same c d) : Ready d := by
+  rcases hs with rfl | rfl
+  · exact h
+  · exact h
+
+theorem unaffected_run {s : St} (g : Nat) (hk : s.cfg.kind = .threaded ∨ s.cfg.kind = .forking) (hq : s.queue = [])
+    (h : Ready (s.cli g)) (ops : List Op) (hops : OthersAndPings g ops) : pongs g ops (runObs s ops) := by
+  induction ops generalizing s with
+  | nil => trivial
+  | cons op ops ih =>
+    have hop := hops op (by simp)
+    have hrest : OthersAndPings g ops := fun o ho => hops o (by simp [ho])
+    have hpool : s.cfg.kind ≠ .pool := by rcases hk with h | h <;> simp [h]
+    unfold runObs
+    cases hs : step s op with
+    | error e =>
+      refine ⟨?_, ih hk hq h hrest⟩
+      intro hcall; subst hcall
+      obtain ⟨t, ht, _⟩ := call_answered g .ping hpool h
+      rw [ht] at hs; cases hs
+    | ok r =>
+      obtain ⟨t, o⟩ := r
+      have hk' : t.cfg.kind = .threaded ∨ t.cfg.kind = .forking := by rw [step_cfg op hs]; exact hk
+      have hq' : t.queue = [] := by rw [step_queue op hpool hs]; exact hq
+      by_cases hc : op.client = some g
+      · have := hop.2 hc; subst this
+        obtain ⟨t', ht, hr, _⟩ := call_answered g .ping hpool h
+        rw [ht] at hs
+        simp only [Except.ok.injEq, Prod.mk.injEq] at hs
+        obtain ⟨rfl, rfl⟩ := hs
+        exact ⟨fun _ => by simp [expected], ih hk' hq' hr hrest⟩
+      · have hsame := others_untouched hk hq op hop.1 g hc (by rw [h.1]; simp) hs
+        refine ⟨?_, ih hk' hq' (by rw [hsame]; exact h) hrest⟩
+        intro hcall; subst hcall; simp [Op.client] at hc
+
+theorem init_queue (cfg : Cfg) : (init cfg).queue = [] := rfl
+
+theorem run_queue (cfg : Cfg) (hk : cfg.kind ≠ .pool) (ops : List Op) : (run (init cfg) ops).queue = [] := by
+  suffices ∀ (l : List Op) (s : St), s.cfg.kind ≠ .pool → s.queue = [] → (run s l).queue = [] from
+    this ops (init cfg) hk rfl
+  intro l
+  induction l with
+  | nil => intro s _ h; exact h
+  | cons a l ih =>
+    intro s hk hq
+    unfold run
+    cases hs : step s a with
+    | error e => exact ih s hk hq
+    | ok r =>
+      obtain ⟨t, o⟩ := r
+      exact ih t (by rw [step_cfg a hs]; exact hk) (by rw [step_queue a hk hs]; exact hq)
+
+
+theorem Up.step {s t : St} {o : Obs} (h : Up s) (hk : s.cfg.kind ≠ .oneshot) (op : Op) (hop : op.c16 = true)
+    (hs : Srv.step s op = .ok (t, o)) : Up t := by
+  cases op with
+  | serverClose => simp [Op.c16] at hop
+  | connect k cred =>
+    rcases step_connect hs with ⟨rfl, _, _⟩ | ⟨rfl, _, _, _, _⟩
+    · exact h
+    · obtain ⟨f1, f2, f3, f4, f5, f6, f7, f8, f9, f10, f11, f12⟩ := joined_facts s k cred
+      obtain ⟨u1, u2, u3, u4, u5⟩ := h
+      have hup : Up (joined s k cred) :=
+        ⟨by rw [f2]; exact u1, by rw [f3]; exact u2, by rw [f4]; exact u3, by rw [f5]; exact u4, by rw [f6, f1]; exact u5⟩
+      exact hup.eff (by rw [f1]; exact hk) (acceptAll_eff _ _)
+  | call k r => exact h.eff hk (step_eff _ (by simp) (by simp) hs)
+  | raw k l => exact h.eff hk (step_eff _ (by simp) (by simp) hs)
+  | gracefulClose k => exact h.eff hk (step_eff _ (by simp) (by simp) hs)
+  | abruptClose k => exact h.eff hk (step_eff _ (by simp) (by simp) hs)
+
+/-- a worker is free in every state the run passes through -/
+def FreeWorkerAlong (s : St) : List Op → Prop
+  | [] => s.blocked.length < s.cfg.nb
+  | op :: ops =>
+    s.blocked.length < s.cfg.nb ∧
+    match Srv.step s op with
+    | .ok (t, _) => FreeWorkerAlong t ops
+    | .error _ => FreeWorkerAlong s ops
+
+theorem unaffected_run_pool {s : St} (g : Nat) (hk : s.cfg.kind = .pool) (hup : Up s) (hq : QInv s)
+    (h : Ready (s.cli g)) (ops : List Op) (hfree : FreeWorkerAlong s ops) (hops : OthersAndPings g ops) :
+    pongs g ops (runObs s ops) := by
+  induction ops generalizing s with
+  | nil => trivial
+  | cons op ops ih =>
+    have hop := hops op (by simp)
+    have hrest : OthersAndPings g ops := fun o ho => hops o (by simp [ho])
+    have hone : s.cfg.kind ≠ .oneshot := by simp [hk]
+    have hpu : s.poolUp = true := by rw [hup.2.2.2.2]; simp [hk]
+    obtain ⟨hfw, hfree'⟩ := hfree
+    have hqe : s.queue = [] := by
+      cases hql : s.queue with
+      | nil => rfl
+      | cons a l =>
+        have := hq (by simp [hql]); simp [freeWorkers] at this; omega
+    unfold runObs
+    cases hs : Srv.step s op with
+    | error e =>
+      rw [hs] at hfree'
+      refine ⟨?_, ih hk hup hq h hfree' hrest⟩
+      intro hcall; subst hcall
+      obtain ⟨t, ht, _⟩ := call_answered_pool g .ping hk hpu hq hfw h
+      rw [ht] at hs; cases hs
+    | ok r =>
+      obtain ⟨t, o⟩ := r
+      rw [hs] at hfree'
+      have hk' : t.cfg.kind = .pool := by rw [step_cfg op hs]; exact hk
+      have hup' := hup.step hone op hop.1 hs
+      have hq' := hq.step hk op hop.1 hs
+      by_cases hc : op.client = some g
+      · have := hop.2 hc; subst this
+        obtain ⟨t', ht, hr, _⟩ := call_answered_pool g .ping hk hpu hq hfw h
+        rw [ht] at hs
+        simp only [Except.ok.injEq, Prod.mk.injEq] at hs
+        obtain ⟨rfl, rfl⟩ := hs
+        exact ⟨fun _ => by simp [expected], ih hk' hup' hq' hr hfree' hrest⟩
+      · have hsame := others_untouched_pool hk op hop.1 g hc (by rw [h.1]; simp) (by rw [hqe]; simp) hs
+        refine ⟨?_, ih hk' hup' hq' (h.same hsame) hfree' hrest⟩
+        intro hcall; subst hcall; simp [Op.client] at hc
+
+theorem QInv.init (cfg : Cfg) : QInv (init cfg) := by intro h; simp [Srv.init] at h
+
+theorem run_pool_inv (cfg : Cfg) (hk : cfg.kind = .pool) (ops : List Op) (hops : ∀ op ∈ ops, op.c16 = true) :
+    Up (run (init cfg) ops) ∧ QInv (run (init cfg) ops) := by
+  suffices ∀ (l : List Op) (s : St), s.cfg.kind = .pool → Up s → QInv s → (∀ op ∈ l, op.c16 = true) →
+      Up (run s l) ∧ QInv (run s l) from
+    this ops (init cfg) hk ⟨rfl, rfl, rfl, rfl, rfl⟩ (QInv.init cfg) hops
+  intro l
+  induction l with
+  | nil => intro s _ h1 h2 _; exact ⟨h1, h2⟩
+  | cons a l ih =>
+    intro s hk h1 h2 hops
+    unfold run
+    cases hs : Srv.step s a with
+    | error e => exact ih s hk h1 h2 (fun o ho => hops o (by simp [ho]))
+    | ok r =>
+      obtain ⟨t, o⟩ := r
+      exact ih t (by rw [step_cfg a hs]; exact hk) (h1.step (by simp [hk]) a (hops a (by simp)) hs)
+        (h2.step hk a (hops a (by simp)) hs) (fun o ho => hops o (by simp [ho]))
+
 end Rpyc.Srv
